@@ -117,6 +117,25 @@ var (
 	PDUSessionReleaseCompleteIEs = []IEDef{{0x59, FmtTV, 1, "5GSM cause"}, {0x7B, FmtTLVE, 0, "Extended protocol configuration options"}}
 )
 
+// EncodeSuci: THE 5GS mobile identity of TS 24.501 9.11.3.4 for a SUCI with SUPI format IMSI, routing indicator 0,
+// null protection scheme, home network public key identifier 0 (what a UE without a provisioned routing indicator and
+// without SUPI concealment sends), octet for octet.
+func EncodeSuci(mcc, mnc, msin string) []byte {
+	b := []byte{0x01}
+	b = append(b, PLMN(mcc, mnc)...)
+	b = append(b, 0xf0, 0xff, 0x00, 0x00)
+	for i := 0; i < len(msin); i += 2 {
+		o := msin[i] - '0'
+		if i+1 < len(msin) {
+			o |= (msin[i+1] - '0') << 4
+		} else {
+			o |= 0xf0
+		}
+		b = append(b, o)
+	}
+	return b
+}
+
 // DecodeSuci: independent TS 24.501 9.11.3.4 decoder for SUPI format IMSI, null scheme.
 func DecodeSuci(b []byte) (mcc, mnc, msin string, err error) {
 	if len(b) < 9 {
